@@ -1625,7 +1625,13 @@ def run(ctx):
 
     seen_rqa = set()
 
-    def enumerate_methods(obj, tag, klass, sparse, sup_thr, embedded, replay, R=None, check_values=True):
+    seen_rqam = set()
+
+    def enumerate_methods(obj, tag, klass, sparse, sup_thr, embedded, replay, R=None, check_values=True,
+                          atoms=None):
+        """`atoms` = what the caller asked of the constructor: (sparse_rqa, metric == "supremum",
+        threshold given, missing_values, dim given, tau given); round 4: every call is also compared
+        with the outcome *derived from the regenerated method bodies* (request `rqam`)"""
         for nm in public_methods(klass):
             for a in ARGS.get(nm, [()]):
                 try:
@@ -1647,6 +1653,14 @@ def run(ctx):
                     seen_rqa.add(key)
                     reqs.append(f"rqa {tag} {int(sparse)} {int(sup_thr)} {int(embedded)} {need}")
                     impl.append(got)
+                if atoms is not None:
+                    keym = (klass.__name__, nm, atoms, got)
+                    if keym not in seen_rqam:
+                        seen_rqam.add(keym)
+                        reqs.append(f"rqam {klass.__name__} {nm} " + " ".join(str(int(b)) for b in atoms))
+                        impl.append(got if got in ("ok", "raise:NotImplementedError", "raise:ValueError")
+                                    else "undocumented:" + got)
+                        ctx.count(f"rqa-derived:{tag}" + (":sparse" if sparse else ""))
                 if need is None and got != "ok":
                     ctx.fail(dict(kind="rqa-applicable", cls=tag, method=nm, sparse=sparse,
                                   error="unclassified"),
@@ -1679,6 +1693,38 @@ def run(ctx):
                                      f"{klass.__name__}.recurrence_probability({lag_}) = {val}: the "
                                      f"{lag_}-th diagonal has {dsum} recurrences out of {den}",
                                      dict(replay, lag=lag_, expected=dsum / den, observed=float(val)))
+                if nm == "diagline_dist" and tag != "crp" and 1 <= Rm.shape[0] <= 12 \
+                        and Rm.shape[0] == int(obj.N):
+                    # round 4: the method as it computes (twice the lines of the lower triangle, with
+                    # the missing-value mask) against the model `diaglineDist` — on symmetric
+                    # matrices, where the property fixes the value.  On the asymmetric matrices of a
+                    # fixed local rate the property does not say which triangle is to be read: the
+                    # oracle accepts twice the lower, twice the upper triangle or their sum.
+                    mvi = getattr(obj, "missing_value_indices", None) \
+                        if getattr(obj, "missing_values", False) else None
+                    mask = "none" if mvi is None else ",".join(str(int(b)) for b in mvi)
+                    symm = bool(np.array_equal(Rm, Rm.T))
+                    ctx.count("diagline_dist:" + ("symmetric" if symm else "asymmetric")
+                              + (":mv" if mvi is not None else ""))
+                    if symm:
+                        reqs.append(f"dline {int(obj.N)} {mask} {enc_bmat(Rm)}")
+                        impl.append(",".join(str(int(v)) for v in val) or "-")
+                    elif mvi is None:
+                        side_ = Rm.shape[0]
+                        lo, up = [0] * side_, [0] * side_
+                        for k_ in range(1, side_):
+                            for r_ in runs_of(np.diag(Rm, -k_)):
+                                lo[r_ - 1] += 1
+                            for r_ in runs_of(np.diag(Rm, k_)):
+                                up[r_ - 1] += 1
+                        got_d = [int(v) for v in val]
+                        if got_d not in ([2 * a_ for a_ in lo], [2 * a_ for a_ in up],
+                                         [a_ + b_ for a_, b_ in zip(lo, up)]):
+                            ctx.fail(dict(kind="rqa-applicable", cls=tag, method="diagline_dist",
+                                          error="value", symmetric=False),
+                                     f"{klass.__name__}.diagline_dist() on an asymmetric matrix is neither "
+                                     "the line count of a triangle (doubled) nor of both triangles",
+                                     dict(replay, observed=got_d, lower=lo, upper=up))
                 if nm == "twins" and tag != "crp":
                     md = a[0] if a else 7
                     Nn = Rm.shape[0]
@@ -1730,8 +1776,9 @@ def run(ctx):
                     Rm = np.asarray(o.recurrence_matrix())
                     ctx.case(("rqa-all", "rp", metric, emb, kind, arg, mv, ts.tobytes().hex()),
                              nontrivial(Rm))
+                    at_ = (metric == "supremum", kind == "t", mv, emb is not None, emb is not None)
                     enumerate_methods(o, "rp", RecurrencePlot, False, False, emb is not None, replay,
-                                      R=Rm, check_values=not (mv and has_nan))
+                                      R=Rm, check_values=not (mv and has_nan), atoms=(False,) + at_)
                     if not (mv and has_nan):
                         check_rqa(ctx, o, Rm, "RecurrencePlot", dict(spec=kind, missing=False,
                                                                     stream="all-methods"), replay)
@@ -1748,7 +1795,8 @@ def run(ctx):
                                  f"{type(ex).__name__}: {ex}", replay)
                         continue
                     rep_s = dict(replay, sparse_rqa=True)
-                    enumerate_methods(osp, "rp", RecurrencePlot, True, sup_thr, emb is not None, rep_s)
+                    enumerate_methods(osp, "rp", RecurrencePlot, True, sup_thr, emb is not None, rep_s,
+                                      atoms=(True,) + at_)
                     if sup_thr:
                         ctx.count("sparse_rqa:threshold:supremum" + (":mv" if mv and has_nan else ""))
                         with np.errstate(all="ignore"):
@@ -1780,7 +1828,7 @@ def run(ctx):
                             enumerate_methods(on, "rn", RecurrenceNetwork, False, False, emb is not None,
                                               dict(replay, cls="RecurrenceNetwork"),
                                               R=np.asarray(on.recurrence_matrix()),
-                                              check_values=not (mv and has_nan))
+                                              check_values=not (mv and has_nan), atoms=(False,) + at_)
                         except Exception as ex:  # noqa
                             ctx.fail(dict(kind="construct", cls="RecurrenceNetwork", spec=kind,
                                           error=type(ex).__name__, missing_values=mv, nodes=">=2"),
@@ -1796,8 +1844,10 @@ def run(ctx):
                 try:
                     oc = CrossRecurrencePlot(caller_array(rng, x), caller_array(rng, y), metric=metric,
                                              silence_level=3, **{kwname: arg}, **ekw)
+                    at2_ = (False, metric == "supremum", kind == "t", False, emb is not None,
+                            emb is not None)
                     enumerate_methods(oc, "crp", CrossRecurrencePlot, False, False, False, replay,
-                                      R=np.asarray(oc.recurrence_matrix()))
+                                      R=np.asarray(oc.recurrence_matrix()), atoms=at2_)
                 except Exception as ex:  # noqa
                     ctx.fail(dict(kind="construct", cls="CrossRecurrencePlot", spec=kind,
                                   error=type(ex).__name__),
@@ -1811,7 +1861,8 @@ def run(ctx):
                                                           metric=metric, silence_level=3,
                                                           **{kwname: (arg,) * 3}, **ekw3)
                         enumerate_methods(oi, "isrn", InterSystemRecurrenceNetwork, False, False, False,
-                                          replay)
+                                          replay, atoms=(False, metric == "supremum", kind == "t", False,
+                                                         emb is not None, emb is not None))
                 except Exception as ex:  # noqa
                     ctx.fail(dict(kind="construct", cls="InterSystemRecurrenceNetwork", spec=kind,
                                   error=type(ex).__name__),
@@ -1832,7 +1883,10 @@ def run(ctx):
                             oj = JointRecurrencePlot(caller_array(rng, x), caller_array(rng, y),
                                                      silence_level=3, **kwj)
                         JRm = np.asarray(oj.recurrence_matrix())
-                        enumerate_methods(oj, "jrp", JointRecurrencePlot, False, False, False, replay, R=JRm)
+                        at3_ = (False, metric == "supremum", kind == "t", False, emb is not None,
+                                emb is not None)
+                        enumerate_methods(oj, "jrp", JointRecurrencePlot, False, False, False, replay, R=JRm,
+                                          atoms=at3_)
                         check_rqa(ctx, oj, JRm, "JointRecurrencePlot",
                                   dict(lag_nonzero=lag != 0, stream="all-methods"), replay)
                         if n - abs(lag) >= 2:
@@ -1841,12 +1895,74 @@ def run(ctx):
                                                              silence_level=3, **kwj)
                             enumerate_methods(ojn, "jrn", JointRecurrenceNetwork, False, False, False,
                                               dict(replay, cls="JointRecurrenceNetwork"),
-                                              R=np.asarray(ojn.recurrence_matrix()))
+                                              R=np.asarray(ojn.recurrence_matrix()), atoms=at3_)
                     except Exception as ex:  # noqa
                         ctx.fail(dict(kind="construct", cls="JointRecurrencePlot", spec=kind,
                                       lag_nonzero=lag != 0, error=type(ex).__name__),
                                  f"Joint recurrence plot / network (lag={lag}) raised "
                                  f"{type(ex).__name__}: {ex}", replay)
+
+    # round 4: only one of `dim` / `tau` given (no embedding takes place; the ordinal entropies
+    # must raise their documented ValueError), with and without sequential RQA, all metrics,
+    # threshold and rate — every public method against the outcome derived from the method bodies
+    for metric in METRICS:
+        for part in (dict(dim=2), dict(tau=1), dict(dim=3, tau=None), dict(dim=None, tau=2)):
+            for kind, kwname in (("t", "threshold"), ("r", "recurrence_rate")):
+                for mv in (False, True):
+                    n = rng.choice([2, 3, 5])
+                    ts = gen_series(rng, n, rng.choice([1, 2]), nan_p=0.2 if mv else 0)
+                    arg = float(gen_eps(rng)) if kind == "t" else float(gen_rate(rng))
+                    kw = dict(metric=metric, missing_values=mv, **{kwname: arg}, **part)
+                    replay = dict(cls="RecurrencePlot", time_series=ts.tolist(), kwargs=kw)
+                    at_ = (metric == "supremum", kind == "t", mv, part.get("dim") is not None,
+                           part.get("tau") is not None)
+                    ctx.count("partial-embedding:" + ",".join(sorted(k for k, v in part.items()
+                                                                     if v is not None)))
+                    try:
+                        with np.errstate(all="ignore"):
+                            o = RecurrencePlot(caller_array(rng, ts), silence_level=3, **kw)
+                            enumerate_methods(o, "rp", RecurrencePlot, False, False, False, replay,
+                                              atoms=(False,) + at_)
+                            osp = RecurrencePlot(caller_array(rng, ts), silence_level=3, sparse_rqa=True,
+                                                 **kw)
+                            enumerate_methods(osp, "rp", RecurrencePlot, True,
+                                              metric == "supremum" and kind == "t", False,
+                                              dict(replay, sparse_rqa=True), atoms=(True,) + at_)
+                            if n - (int(np.isnan(ts).any(axis=1).sum()) if mv else 0) >= 2:
+                                on = RecurrenceNetwork(caller_array(rng, ts), silence_level=3, **kw)
+                                enumerate_methods(on, "rn", RecurrenceNetwork, False, False, False,
+                                                  dict(replay, cls="RecurrenceNetwork"),
+                                                  atoms=(False,) + at_)
+                    except Exception as ex:  # noqa
+                        ctx.fail(dict(kind="construct", cls="RecurrencePlot", spec=kind,
+                                      error=type(ex).__name__, partial_embedding=True),
+                                 f"RecurrencePlot({kw}) raised {type(ex).__name__}: {ex}", replay)
+
+    # round 4: diagline_dist on the asymmetric matrices of a fixed local recurrence rate (plot and
+    # directed network, with / without missing values): the method = model `diaglineDist`
+    # (twice the lines of the lower triangle), every other public method against its derived outcome
+    for c in range(4 * scale):
+        n = rng.randrange(3, 11)
+        metric = rng.choice(METRICS)
+        mv = rng.random() < 0.3
+        ts = gen_series(rng, n, rng.choice([1, 2]), nan_p=0.15 if mv else 0, span=rng.choice([6, 12]))
+        lrr = float(gen_rate(rng))
+        kw = dict(metric=metric, missing_values=mv, local_recurrence_rate=lrr)
+        replay = dict(cls="RecurrencePlot", time_series=ts.tolist(), kwargs=kw)
+        try:
+            with np.errstate(all="ignore"):
+                klass = RecurrenceNetwork if (rng.random() < 0.3 and not mv) else RecurrencePlot
+                o = klass(caller_array(rng, ts), silence_level=3, **kw)
+            Rm = np.asarray(o.recurrence_matrix())
+            ctx.case(("local-rate-diag", metric, mv, lrr, ts.tobytes().hex()), nontrivial(Rm))
+            enumerate_methods(o, "rn" if klass is RecurrenceNetwork else "rp", klass, False, False, False,
+                              dict(replay, cls=klass.__name__), R=Rm,
+                              check_values=klass is RecurrencePlot,
+                              atoms=(False, metric == "supremum", False, mv, False, False))
+        except Exception as ex:  # noqa
+            ctx.fail(dict(kind="construct", cls="RecurrencePlot", spec="l", error=type(ex).__name__,
+                          stream="local-rate-diag"),
+                     f"RecurrencePlot(local_recurrence_rate={lrr}) raised {type(ex).__name__}: {ex}", replay)
 
     # sequential RQA, dedicated stream: supremum metric + fixed threshold, all sizes, embedding,
     # multi-column series, missing values, thresholds with exact ties
